@@ -771,6 +771,11 @@ func checkDiagnosticSink(c *Ctx, f *FC) {
 					if consolePrinters[k] {
 						return false // printed: the value ends here
 					}
+					if (k == "fmt.Fprintf" || k == "fmt.Fprintln" || k == "fmt.Fprint") && len(app.Args) > 0 {
+						if g, ok := app.Args[0].(*ir.Global); ok && (g.Key == "os.Stderr" || g.Key == "os.Stdout") && !tainted(app.Args[0]) {
+							return false // printed to a console stream
+						}
+					}
 					if diagFormatters[k] {
 						return true
 					}
@@ -845,7 +850,7 @@ func checkDetInventory(c *Ctx, progs map[string]*ir.Program, mods map[string]*co
 					}
 				}
 				if g, ok := t.(*ir.Global); ok && g.Obj.Pkg() != nil && !strings.HasPrefix(g.Obj.Pkg().Path(), "github.com/karino2/folang") {
-					if g.Key != "os.Args" {
+					if g.Key != "os.Args" && g.Key != "os.Stderr" && g.Key != "os.Stdout" {
 						ext["var:"+g.Key+"|"+g.Obj.Pkg().Path()] = true
 					}
 				}
